@@ -212,6 +212,22 @@ CHECKS["C02"] = dict(
     technique="syntactic/finite obligations on the real ast + contract on the visitor closure (pyvc+z3); arithmetic by a bounded native check",
 )
 
+CHECKS["C05"] = dict(
+    category="proof",
+    text=("Transition-table conformance, proved for every character and buffer state: the body of the character loop of "
+          "c_cleaner.process is verified as a unit for each of the 22 reachable state-stack shapes (and the directives-only "
+          "variants) against the reference scanner for translation phases 2-3 (comment markers inside literals, quotes inside "
+          "comments, pending slash with put-back, block-comment end becomes one space, // ends the line); c_cleaner."
+          "logical_newline per shape; one_space_line.append_char/append_space/append_nonspace/category against the "
+          "representation invariant (BLANK iff only blanks, directive iff the first non-blank part is #); LineGroup.add_line/"
+          "empty arithmetic. 774 obligations. The composition over whole files (c_file_source, FileParser) is a bounded "
+          "stand-in: every text of <= 5 (quick) / <= 7 (thorough, 5.4M texts) characters over the 9 lexically significant "
+          "letters plus random token-level texts vs the reference scanner; two deviations are recorded findings."),
+    design_ref="DESIGN.md section 5 C05, section 9",
+    note=COMMON_NOTE + "A9 the reference scanner table is a trusted spec; character constants are one character or one escape; C++ raw strings / trigraphs outside.",
+    technique=TECH,
+)
+
 NA = {}
 
 DEFAULT_NA = "check not built yet (work in progress; see DESIGN.md section 5 for the plan)"
